@@ -114,8 +114,9 @@ class C06Scenario(ChangeScenario):
                     continue
                 uid = pre['metadata']['uid']
                 f_pre, f_post = fins(pre), fins(post)
-                foreign_pre = [f for f in f_pre if f != FINALIZER]
-                foreign_post = [f for f in f_post if f != FINALIZER]
+                own = {FINALIZER, self.params.get('user_fin')}    # a finalizer the operator's own handlers manage is not foreign
+                foreign_pre = [f for f in f_pre if f not in own]
+                foreign_post = [f for f in f_post if f not in own]
                 if foreign_pre != foreign_post:
                     out.append(self.viol(env, 'foreign-finalizers-changed',
                                          f"t={t}: the operator's write turned foreign finalizers {foreign_pre} into {foreign_post}",
